@@ -14,14 +14,23 @@ from .common import walk
 
 
 def renamer(pairs):
-    """pairs: list of (a, b) substrings; an identifier of either family is mapped to the
-    neutral form of a.  Constant array bounds inside type names are dropped (they are the
-    sizes of the two families' types)."""
+    """pairs: ordered list of (neutral, variant) substrings: every occurrence of a variant
+    in an identifier or type name is replaced by its neutral form (each position is
+    rewritten once; longer variants should come first).  Constant array bounds inside type
+    names are dropped (they are the sizes of the two families' types)."""
+    neutrals = []
+    for n, _ in pairs:
+        if n not in neutrals:
+            neutrals.append(n)
+    mark = {n: chr(0xE000 + i) for i, n in enumerate(neutrals)}
+
     def f(name):
         if not isinstance(name, str):
             return name
-        for a, b in pairs:
-            name = name.replace(b, "\x00").replace(a, "\x00").replace("\x00", "<" + a + ">")
+        for n, v in pairs:
+            name = name.replace(v, mark[n])
+        for n in neutrals:
+            name = name.replace(mark[n], "<" + n + ">")
         return re.sub(r"\[\d+\]", "[]", name)
     return f
 
